@@ -26,7 +26,7 @@ pub fn all_pairs() -> Vec<(u8, u8)> {
 }
 
 pub fn std_families(quick: bool, with_f4: bool) -> Vec<Family> {
-    let mut fams: Vec<Family> = vec![f3(), fcastle(true), fep(!quick), fpromo(), fmate(), fdouble(!quick)];
+    let mut fams: Vec<Family> = vec![f3(), fcastle(true), fep(!quick), fpromo(), fmate(), fdouble(!quick), fpin(!quick)];
     if with_f4 {
         if quick {
             fams.push(f4(
